@@ -6,7 +6,7 @@ import random
 from . import lib, secstruct as ss
 
 OPS = ["str", "pairs", "sequence", "dot_bracket", "fcfs", "all", "elements",
-       "without_pseudoknots", "without_isolated"]
+       "without_pseudoknots", "without_isolated", "convert_none"]
 
 
 def gen_histories(depth, maxobjs, scratch, n=8):
@@ -70,6 +70,9 @@ def _answer(b, op):
         return {"seq": list(d.sequence), "db": list(d.structure)}, None
     if op == "fcfs":
         d = b.fcfs
+        return {"seq": list(d.sequence), "db": list(d.structure)}, None
+    if op == "convert_none":
+        d = b.convert_to_dot_bracket(None)
         return {"seq": list(d.sequence), "db": list(d.structure)}, None
     if op == "all":
         return {"list": sorted(list(d.structure) for d in b.all_dot_brackets)}, None
